@@ -1,7 +1,7 @@
 #!/bin/bash
 # usage: run_all.sh <seed> [tier]  -- runs every claimed check once, prints one line per check
 seed=${1:-0}; tier=${2:-quick}
-cd /verif
+cd "$(dirname "$0")/.."
 for p in $(/venv/bin/python -c "import json;print(' '.join(c['property_id'] for c in json.load(open('MANIFEST.json'))['checks']))"); do
   s=$(date +%s)
   out=$(VERIF_SEED=$seed /venv/bin/python -m harness.check $p --tier $tier 2>&1)
